@@ -231,6 +231,7 @@ def extract(f):
         return None
     t = Table(f)
     t.info_id = info_id
+    t.rowconds = set()
     t.region = top[:idx]
     t.errblock = top[idx]
     t.defs = single_defs(f, t.region)
@@ -244,6 +245,11 @@ def extract(f):
                 walk(x, guard, chain_id)
         elif s.k == 'If':
             cond = s.c[0]
+            th = s.c[1]
+            while th.k == 'Block' and len(th.c) == 1:
+                th = th.c[0]
+            if th.k == 'Assign' and is_info_lvalue(th.c[0], info_id):
+                t.rowconds.add(id(cond))        # `if (cond) info = -k;` - a screening row: its else side means "that argument is legal"
             if chain_id is None:
                 chain[0] += 1
                 cid = chain[0]
@@ -298,7 +304,10 @@ def row_disjuncts(t, row):
     d = dnf(subst(inner[0], t.defs), inner[1])
     ctx_atoms = []
     for (c, p) in ctx:
-        ctx_atoms.append((subst(c, t.defs), p))
+        sc = subst(c, t.defs)
+        if id(c) in getattr(t, 'rowconds', ()):
+            t.rowconds.add(id(sc))          # identity of a screening row survives the alias substitution
+        ctx_atoms.append((sc, p))
     return d, ctx_atoms
 
 
